@@ -65,7 +65,7 @@ def map_case_st(draw, thick=False):
                    "unit": draw(st.sampled_from(meshes.LEN_UNITS))},
         "orient": draw(orient_st),
         "window": {"given": draw(st.integers(0, 9)) > 0,
-                   "cls": draw(st.sampled_from(["<0.1", "0.1-1", "0.1-1", "1-10", "1-10", ">10"])),
+                   "cls": draw(st.sampled_from(["<0.1", "0.1-1", "0.1-1", "1-10", "1-10", ">10", "pixel~cell", "pixel~cell"])),
                    "frac": draw(st.floats(0, 1)), "dy": draw(st.sampled_from([None, None, 0.5, 2.0])),
                    "unit": draw(st.sampled_from(meshes.LEN_UNITS))},
         "res": draw(st.one_of(st.integers(1, 24), st.fixed_dictionaries({"x": st.integers(1, 24), "y": st.integers(1, 24)}))),
@@ -145,8 +145,12 @@ def setup_map(case, m):
             org = c + 0.5 * s
     w = case["window"]
     smin, smed = float(m.size.min()), float(np.median(m.size))
+    res_ = case["res"]
+    nres = res_ if isinstance(res_, int) else res_["x"]
     lo_hi = {"<0.1": (0.05 * smin, 0.1 * smed), "0.1-1": (0.1 * smed, 1.0 * smed), "1-10": (1.0 * smed, 10 * smed),
-             ">10": (10 * smed, max(3 * L, 11 * smed))}[w["cls"]]
+             ">10": (10 * smed, max(3 * L, 11 * smed)),
+             # pixels between one and two cell sizes: a cell can cover a neighbouring pixel's centre only obliquely
+             "pixel~cell": (nres * smed * 0.9, nres * smed * 2.0)}[w["cls"]]
     a, b = lo_hi
     b = max(b, a * 1.0001)
     dxw = a * (b / a) ** w["frac"]
